@@ -7,7 +7,7 @@ import re
 
 from ..core import AnalysisError, norm
 from ..sim import check_reach, truthy_view
-from .common import (effects, paths_of, check_writers, check_callers, ctor_sites, arg_by_name, named_call_sites,
+from .common import (dtext, effects, paths_of, check_writers, check_callers, ctor_sites, arg_by_name, named_call_sites,
                      call_sites_of, wkey)
 
 CI = 'core.connection_impl.ConnectionImpl'
@@ -90,8 +90,9 @@ def _classify_use(f, node, level):
 
 
 def cdb(t):
-    """canonical spelling of object-table terms: d.get(k) names the same entry as d[k]"""
-    return re.sub(r'self\.db\.get\((\w+)\)', r'self.db[\1]', t or '')
+    """canonical spelling of object-table terms: d.get(k) and d.setdefault(k, []) name the same entry as d[k]"""
+    from .c03 import cdb as _cdb
+    return _cdb(t)
 
 
 def run(ctx):
@@ -128,7 +129,8 @@ def run(ctx):
         return w.kind == 'mutate' and w.via == 'append'
     check_writers(ctx, 'C02.1', CI, 'db', [('ConnectionImpl.__init__', lambda w: w.kind == 'store' and w.fresh),
                                            ('ConnectionImpl.create_object', empty_list_store),
-                                           ('ConnectionImpl.create_object', append_only)], floor=2)
+                                           ('ConnectionImpl.create_object', append_only),
+                                           ('ConnectionImpl.create_object', lambda w: w.kind == 'mutate' and w.via == 'setdefault' and re.search(r'self\.db\.setdefault\(\w+, \[\]\)', norm(w.stmt)) is not None)], floor=2)
     _db_uses(ctx)
     cpaths = paths_of(repo, f_create)
     # the empty-list store happens only when the id is absent
@@ -139,9 +141,14 @@ def run(ctx):
         if re.match(r'^self\.db\[\w+\] is None$', t):
             return ('present', False)
         return None
-    probs = check_reach(cpaths, lambda e: e.kind == 'store' and e.target and re.match(r'^self\.db\[\w+\]$', e.target),
-                        m_in_db, lambda F: (not F['present']) if F.get('guard_ok', True) else None, universe=['present'],
-                        ignore_raise=True)
+    explicit_store = any(e.kind == 'store' and e.target and re.match(r'^self\.db\[\w+\]$', e.target) for p in cpaths for e in p.events)
+    by_setdefault = any(e.kind == 'call' and e.ftext == 'self.db.setdefault' and len(e.args) == 2 and norm(e.args[1]) == '[]' for p in cpaths for e in p.events)
+    if by_setdefault and not explicit_store:
+        probs = []      # dict.setdefault(k, []) creates the empty list exactly when k is absent - by construction
+    else:
+        probs = check_reach(cpaths, lambda e: e.kind == 'store' and e.target and re.match(r'^self\.db\[\w+\]$', e.target),
+                            m_in_db, lambda F: (not F['present']) if F.get('guard_ok', True) else None, universe=['present'],
+                            ignore_raise=True)
     ctx.check(not probs, 'C02.1', 'create_object:new-list-iff-absent', f_create.loc(),
               'self.db[k] = [] is reached exactly when k is not yet in the table (so an id list is never reset)',
               'self.db[k] = [] can run although k is present (an id list is reset, incarnations are lost): %s'
@@ -377,9 +384,8 @@ def run(ctx):
             ctx.check(ok, 'C02.6', 'resolve:order', f_mres.loc(e.node),
                       'target resolution, bind typing and delete_id handling precede argument resolution',
                       'an argument is resolved before the target/bind/delete_id step on path %s' % p.describe()[:200])
-            m = re.match(r'^<elem(\d+) of enumerate\(self\.args\)>\[1\]$', norm(e.recv))
-            good = bool(m) and e.argtext(0) == 'conn' and e.argtext(1) == 'self' \
-                and e.argtext(2) == '<elem%s of enumerate(self.args)>[0]' % (m.group(1) if m else '')
+            m = re.match(r'^<elem(\d+) of self\.args>$', norm(e.recv))
+            good = bool(m) and e.argtext(0) == 'conn' and e.argtext(1) == 'self' and e.argtext(2) == (m.group(1) if m else '')   # element k with index k
             ctx.check(good, 'C02.6', 'resolve:arg-loop', f_mres.loc(e.node),
                       'every argument is resolved with (conn, this message, its own position)',
                       'argument loop calls %s' % e.text[:140])
@@ -403,7 +409,7 @@ def run(ctx):
         gen_none = [v for a, v in p.decisions if a.text == 'self.generation is None']
         if gen_none and not gen_none[0] and p.outcome[0] == 'return':
             nl += 1
-            t = norm(p.outcome[1])
+            t = dtext(p.outcome[1])
             ctx.check('str(self.id)' in t and 'number_to_letter_id(self.generation, False)' in t, 'C02.7', 'id_str:label', f_ids.loc(),
                       'label is built from self.id and number_to_letter_id(self.generation, False)', 'label is %s' % t[:160])
     ctx.floor('C02.7', nl, 1, 'labelled path of id_str')
